@@ -61,6 +61,12 @@ func (rm *ResponseManager) processRequests(p peer.ID, requests []gsmsg.GraphSync
 	defer messageSpan.End()
 
 	for _, request := range requests {
+		// a request ID is only meaningful for the peer that opened it: messages from any other peer
+		// carrying an ID in use must not touch the response being served under that ID
+		if response, ok := rm.inProgressResponses[request.ID()]; ok && response.peer != p {
+			log.Warnf("ignoring %s request from %s for request ID %s in use by %s", request.Type(), p, request.ID().String(), response.peer)
+			continue
+		}
 		switch request.Type() {
 		case graphsync.RequestTypeCancel:
 			_ = rm.abortRequest(ctx, request.ID(), ipldutil.ContextCancelError{})
